@@ -144,7 +144,7 @@ Lemma pp_variant en tn sh v : pp (py_variant_of uc cfg en tn sh v).
 Proof. unfold py_variant_of. cbv zeta. destruct v; repeat first [apply pp_texp | pp_step]. Qed.
 
 Definition py_item_gens (it : ritem) : list str :=
-  match it with ItStruct s => sgenerics s | ItEnum e => egenerics (enum_shared e) | _ => [] end.
+  match it with ItStruct s => sgenerics s | ItEnum e => egenerics (enum_shared e) | ItAlias a => agenerics a | _ => [] end.
 
 Lemma pp_decl it : forallb py_tv_ok (py_item_gens it) = true -> pp (py_decl_of uc cfg it).
 Proof.
@@ -158,7 +158,8 @@ Proof.
       unfold py_algebraic_of.
       eapply (post_bind pyf_inv (fun _ => True)); [exact (pp_add_type_vars _ Hg)|intros ? _].
       repeat first [apply pp_mmapM; intros; apply pp_variant | pp_step].
-  - repeat first [apply pp_texp | pp_step].
+  - eapply (post_bind pyf_inv (fun _ => True)); [apply pp_texp|intros ? _].
+    eapply (post_bind pyf_inv (fun _ => True)); [exact (pp_add_type_vars _ Hg)|intros ? _]. apply post_ret. exact I.
   - repeat first [apply pp_texp | pp_step].
 Qed.
 
